@@ -24,6 +24,7 @@ type Config struct {
 	Cuts       map[string]string
 	ModulePath string
 	Verbose    bool
+	Params     map[string]int
 	BVStr      bool // strings as bounded byte vectors (capacity MaxStrLen)
 	StrBytes   bool // constrain fresh strings to chars < 256
 	MaxStrLen  int  // if >0, every fresh string has length <= MaxStrLen
@@ -142,13 +143,15 @@ type selCase struct {
 }
 
 type G struct {
-	ID      int
-	Stack   []*Frame
-	Status  string // runnable | blocked | parked | done
-	Wait    *waitInfo
-	Name    string
-	Held    []*Loc
-	Started bool
+	ID       int
+	Stack    []*Frame
+	Status   string // runnable | blocked | parked | done
+	Wait     *waitInfo
+	Name     string
+	Held     []*Loc
+	Started  bool
+	Parent   int
+	SpawnSeq int
 }
 
 type namedVar struct {
@@ -175,12 +178,14 @@ type State struct {
 	steps       int
 	preempts    int
 	timersOn    bool
+	prov        map[string][]Prov
 	jsonCache   map[string]Val
 	ufCache     map[string]Val
 	lastSwitch  bool
 	unknown     int
 	endKind     string
 	accessLog   []Access
+	accessSeq   int
 	logAccess   bool
 	jsonCalls   []jsonCall
 	containsObs []containsObs
@@ -188,6 +193,9 @@ type State struct {
 
 // Access is a recorded heap access (for lockset analysis).
 type Access struct {
+	Seq   int
+	Map   *MapObj
+	Name  string
 	Loc   *Loc
 	Write bool
 	Pos   string
@@ -445,7 +453,7 @@ func ExploreParallel(prog *ssa.Program, cfg Config, newSolver func() (*smt.Solve
 
 func (e *Engine) runPath(entry *ssa.Function, dec []int) {
 	st := &State{eng: e, sol: e.Solver, dec: dec, varCounter: map[string]int{}, globals: map[*ssa.Global]*Loc{},
-		timersOn: true, jsonCache: map[string]Val{}, ufCache: map[string]Val{}}
+		timersOn: true, prov: map[string][]Prov{}, jsonCache: map[string]Val{}, ufCache: map[string]Val{}}
 	e.Solver.PopTo(0)
 	e.Solver.Push()
 	end := "ok"
@@ -467,7 +475,7 @@ func (e *Engine) runPath(entry *ssa.Function, dec []int) {
 			}
 		}()
 		st.runInits()
-		g := &G{ID: 0, Status: "runnable", Name: "main", Started: true}
+		g := &G{ID: 0, Status: "runnable", Name: "main", Started: true, Parent: -1}
 		st.gs = append(st.gs, g)
 		fr := st.newFrame(entry, nil, nil)
 		g.Stack = append(g.Stack, fr)
